@@ -381,7 +381,49 @@ def b3(prog, ctx):
         ctx.ok("B3", "%s:%d" % (rel, eb[0].lineno), "blocks = corrected_exons when print_corrected")
 
 
+def b4(prog, ctx):
+    """Annotated introns offered to the corrector are looked up in ONE index space: positions in known_features."""
+    rel = "src/long_read_profiles.py"
+    f = prog.func(rel, "OverlappingFeaturesProfileConstructor.match_genomic_features")
+    n = 0
+    # what is stored into matched_features[...] are positions of known_features
+    for c in walk_no_nested(f):
+        if isinstance(c, ast.Call) and isinstance(c.func, ast.Attribute) and c.func.attr == "append" and "matched_features[" in src(c.func.value):
+            n += 1
+            if src(c.args[0]) != "gene_pos":
+                ctx.fail("B4", c, f._qualname, src(c), "matched_features must collect positions in known_features (gene_pos)")
+            else:
+                ctx.ok("B4", "%s:%d" % (rel, c.lineno), "matched_features[read_pos] collects gene positions")
+    # filtered replacement lists: elements drawn from the list being filtered
+    for st in walk_no_nested(f):
+        if isinstance(st, ast.Assign) and isinstance(st.targets[0], ast.Subscript) and src(st.targets[0].value) == "matched_features" \
+                and isinstance(st.value, ast.Name):
+            lst = st.value.id
+            source = src(st.targets[0])
+            for c in walk_no_nested(f):
+                if isinstance(c, ast.Call) and isinstance(c.func, ast.Attribute) and c.func.attr == "append" and src(c.func.value) == lst:
+                    n += 1
+                    a = c.args[0]
+                    if not (isinstance(a, ast.Subscript) and src(a.value) == source):
+                        ctx.fail("B4", c, f._qualname, src(c), "the filtered match list must keep elements of %s (positions in known_features), "
+                                 "but %s is appended: the 'corresponding annotated intron' becomes an unrelated intron of the gene and "
+                                 "the read's junction is moved onto it" % (source, src(a)))
+                    else:
+                        ctx.ok("B4", "%s:%d" % (rel, c.lineno), "filtered list keeps elements of %s" % source)
+    # the corrected feature is known_features[<position from matched_features>]
+    for c in walk_no_nested(f):
+        if isinstance(c, ast.Call) and src(c.func) == "corrected_features.append" and "known_features" in src(c.args[0]):
+            n += 1
+            if src(c.args[0]) != "self.known_features[matched_features[i][0]]":
+                ctx.fail("B4", c, f._qualname, src(c), "annotated intron is not looked up as known_features[matched position]")
+            else:
+                ctx.ok("B4", "%s:%d" % (rel, c.lineno), "annotated intron = known_features[matched_features[i][0]]")
+    ctx.floor("B4", "index-space obligations in match_genomic_features", n, 3)
+
+
 def run(prog, ctx):
+    ctx.rule("B4", "match_genomic_features keeps one index space: matched_features holds positions in known_features, its filtered "
+                   "replacement keeps elements of the filtered list, and the offered intron is known_features[that position]")
     ctx.rule("B1", "in ExonCorrector.process_events every statement through which an annotation-origin value (potential/isoform "
                    "introns, isoform region) or a changed read region reaches the returned (region, introns) is dominated by a "
                    "correct_* flag - directly, via membership in a list whose every insertion is flag-guarded, or via -k-1 keys "
@@ -394,4 +436,5 @@ def run(prog, ctx):
     b1(prog, ctx, flags)
     b2(prog, ctx)
     b3(prog, ctx)
+    b4(prog, ctx)
     ctx.assume("positivity / ordering of blocks needs sorted exons (value-level); the short-read corrector is data-dependent; not decided")
